@@ -55,16 +55,19 @@ SRV_PATHS = ['/', '/a', '/a/b', '/ab', '/x/1/y', '/index.html', '/b', '/q/c', '/
 def render_conf(rng, default, hosts):
     """default: [( [patterns], kind, ident )]; hosts: [(pattern, routes)] -> configuration text"""
     ind = lambda d: ' ' * (4 * d)
-    out = ['server {', ind(1) + 'address "127.0.0.1"', ind(1) + 'port 8080', ind(1) + 'threads 2', ind(1) + 'log {',
+    out = ['server {', ind(1) + 'address "127.0.0.1"', ind(1) + 'port 8080', ind(1) + 'threads 8', ind(1) + 'log {',
            ind(2) + 'level "error"', ind(2) + 'console false', ind(1) + '}']
 
     def routes(rs, d):
-        for pats, kind, ident in rs:
+        for r in rs:
+            pats, kind, ident = r[0], r[1], r[2]
             out.append(ind(d) + 'route ' + rng.choice([', ', ',', ' , ']).join(pats) + ' {')
             if kind == 'redirect':
                 out.append(ind(d + 1) + 'redirect "/id/%s"' % ident)
             else:
                 out.append(ind(d + 1) + 'file "@FIX@/f_%s.txt"' % ident)
+            if len(r) > 3 and r[3] is not None:
+                out.append(ind(d + 1) + 'websocket "@UP%d@"' % r[3])
             out.append(ind(d) + '}')
             if rng.random() < 0.3:
                 out.append('')
@@ -91,27 +94,38 @@ def server_part(ctx):
     if ctx.replay:
         lines, meta, n = [ctx.replay['case']['line']], [None], 0
     for _ in range(n):
+        ups = [0]
+
         def mk_routes(tag):
             rs = []
             for j in range(rng.randint(0, 4)):
                 pats = rng.sample(SRV_ROUTE_PATS, rng.choice([1, 1, 1, 2, 3]))
-                rs.append((pats, rng.choice(['redirect', 'file']), '%s_%d' % (tag, j)))
+                # some routes also take WebSocket upgrades, each tunnelling to its own (identifiable) target
+                up = None
+                if rng.random() < 0.4 and ups[0] < 16:
+                    up = ups[0]
+                    ups[0] += 1
+                rs.append((pats, rng.choice(['redirect', 'file']), '%s_%d' % (tag, j), up))
             return rs
         default = mk_routes('d')
         hosts = [(p, mk_routes('h%d' % i)) for i, p in enumerate(rng.sample(SRV_HOST_PATS, rng.randint(0, 3)))]
         conf = render_conf(rng, default, hosts)
         fixtures = ['%s:%s' % (hx('f_%s.txt' % ident), hx('F ' + ident)) for rs in [default] + [r for _, r in hosts]
-                    for _, kind, ident in rs if kind == 'file']
-        reqs = [(rng.choice(SRV_HOSTS), rng.choice(SRV_PATHS)) for _ in range(8)]
+                    for _, kind, ident, _up in rs if kind == 'file']
+        # plain requests, then a few WebSocket upgrade requests (each tunnel keeps a worker of the real server busy)
+        reqs = [(rng.choice(SRV_HOSTS), rng.choice(SRV_PATHS), False) for _ in range(8)] + \
+               [(rng.choice(SRV_HOSTS), rng.choice([p_ for p_ in SRV_PATHS if '?' not in p_]), True) for _ in range(3)]
         lines.append('srv %s %s %s' % (hx(conf), ','.join(fixtures) or '-',
-                                       ','.join('%s:%s' % ('-' if h is None else hx(h), hx(t)) for h, t in reqs)))
+                                       ','.join('%s:%s:-:-:-:%s' % ('-' if h is None else hx(h), hx(t), 'ws' if w else '-') for h, t, w in reqs)))
         meta.append((default, hosts, reqs))
     im = ctx.impl(lines)
     ctx.evaluations += len(lines)
     from props import srvmodel
     srvmodel.compare(ctx, lines, im, 'server-route-mismatch', 'routing through the config-driven server')
     # the routing model on the flattened pattern lists (a multi-pattern route is one route per pattern, same handler)
-    flat = lambda rs: [(p, (kind, ident)) for pats, kind, ident in rs for p in pats]
+    flat = lambda rs: [(p, (kind, ident)) for pats, kind, ident, _up in rs for p in pats]
+    # the WebSocket route tables: only the routes with a target, in order
+    wsflat = lambda rs: [(p, ('ws', up)) for pats, kind, ident, up in rs if up is not None for p in pats]
     mlines, mref = [], []
     for k, me in enumerate(meta):
         if me is None:
@@ -119,8 +133,12 @@ def server_part(ctx):
         default, hosts, reqs = me
         enc = lambda l: ','.join(hx(x) for x in l) if l else '-'
         sarg = '|'.join('%s:%s' % (hx(h), enc([p for p, _ in flat(rs)])) for h, rs in hosts) if hosts else '-'
-        for q, (h, t) in enumerate(reqs):
-            mlines.append('route %s %s %s %s' % ('-' if h is None else hx(h), hx(t.split('?')[0]), enc([p for p, _ in flat(default)]), sarg))
+        wsarg = '|'.join('%s:%s' % (hx(h), enc([p for p, _ in wsflat(rs)])) for h, rs in hosts) if hosts else '-'
+        for q, (h, t, w) in enumerate(reqs):
+            if w:
+                mlines.append('route %s %s %s %s' % ('-' if h is None else hx(h), hx(t), enc([p for p, _ in wsflat(default)]), wsarg))
+            else:
+                mlines.append('route %s %s %s %s' % ('-' if h is None else hx(h), hx(t.split('?')[0]), enc([p for p, _ in flat(default)]), sarg))
             mref.append((k, q))
     mout = ctx.model(mlines)
     decided = dict(zip(mref, mout))
@@ -135,24 +153,25 @@ def server_part(ctx):
             ctx.report({'line': line[:4000], 'kind': 'server-e2e'}, b[:300], 'one answer per request', cls='server-route-mismatch',
                        failing_input=b in ('PANIC', 'DIED', 'TIMEOUT'), what='the config-driven server did not answer: ' + b[:100])
             continue
-        for q, ((h, t), g) in enumerate(zip(reqs, got)):
+        for q, ((h, t, w), g) in enumerate(zip(reqs, got)):
             d = decided[(k, q)]
-            want_o = oracle(h, t.split('?')[0], [p for p, _ in flat(default)], [(hp, [p for p, _ in flat(rs)]) for hp, rs in hosts])
+            tab = wsflat if w else flat
+            want_o = oracle(h, t.split('?')[0], [p for p, _ in tab(default)], [(hp, [p for p, _ in tab(rs)]) for hp, rs in hosts])
             if d.startswith('sub:'):
                 _, i, j = d.split(':')
-                kind, ident = flat(hosts[int(i)][1])[int(j)][1]
+                kind, ident = tab(hosts[int(i)][1])[int(j)][1]
             elif d.startswith('def:'):
-                kind, ident = flat(default)[int(d.split(':')[1])][1]
+                kind, ident = tab(default)[int(d.split(':')[1])][1]
             else:
-                kind, ident = 'none', None
+                kind, ident = ('closed' if w else 'none'), None
             want = {'redirect': '301:loc:' + ('/id/%s' % ident).encode().hex(), 'file': '200:body:' + ('F %s' % ident).encode().hex(),
-                    'none': '404'}[kind]
+                    'ws': '200:body:' + ('UP%s' % ident).encode().hex(), 'closed': 'noresp', 'none': '404'}[kind]
             ok = g == want or (kind == 'none' and g.startswith('404:'))
             if d != want_o:
-                ctx.report({'line': line[:4000], 'kind': 'server-e2e', 'request': [h, t]}, 'model=' + d, 'oracle=' + want_o,
+                ctx.report({'line': line[:4000], 'kind': 'server-e2e', 'request': [h, t, w]}, 'model=' + d, 'oracle=' + want_o,
                            cls='model-vs-oracle', failing_input=False, what='Coq routing model disagrees with the Python reading of the rule')
             if not ok:
-                ctx.report({'line': line[:4000], 'kind': 'server-e2e', 'request': [h, t]}, g[:200], want, cls='server-route-mismatch',
+                ctx.report({'line': line[:4000], 'kind': 'server-e2e', 'request': [h, t, 'upgrade' if w else 'plain']}, g[:200], want, cls='server-route-mismatch',
                            failing_input=True,
                            what='the server started from this configuration answered Host=%r %s with %s; the routing rule over the '
                                 'configured hosts and routes selects %s (%s)' % (h, t, g[:80], d, want))
